@@ -55,4 +55,18 @@ CHECKS = {
         "quick": {"shards": 16, "budget_s": 20, "min_evals": 5000, "min_counters": {"schedules_two_threads_in_open_branch": 100, "schedules_failure_between_clock_read_and_load": 100, "half_open_episodes": 1000}},
         "thorough": {"shards": 16, "budget_s": 500, "min_evals": 200000, "min_counters": {"schedules_two_threads_in_open_branch": 10000, "half_open_episodes": 100000}},
     },
+    "C17": {
+        "engine": "vp-seglog", "level": "exploration",
+        "rule": "real Writer/Reader/parse_record on real files; a record R is written between two neighbours for header sizes H in {0,1,8,16,32} x data sizes {0,1,2,7,8,...,127,128,129, 2039..2057, 4087..4105, 65527..65545, 200000 (thorough)} plus sizes making H+N a power of two x contents {random,compressible,zero} x compression {off,on}; round trip by random read, sequential read, iteration (from every boundary) and parse_record; then R is damaged in place: EVERY single-bit flip (records <= 1100 B quick / 16 KiB thorough; header + sampled payload bits otherwise), bursts of 2..32 bits with both end bits set at every bit offset (small) or sampled, truncation at every byte (small) or sampled by zeroing the tail and by shortening the file; every read path must refuse R without panicking while the intact neighbour before it still reads; Writer::open on the damaged file must resume at R and a following append must leave the intact record readable. non-trivial = distinct (H, size, content, compression) record cases",
+        "assumptions": A_COMMON + ["an accepted damaged record would be reported even if it were a genuine 2^-32 CRC collision (bursts spanning the len|crc|header boundary are not contiguous in CRC order)"],
+        "quick": {"shards": 16, "budget_s": 60, "min_evals": 500000, "min_counters": {"records_with_every_bit_flipped": 200, "truncations": 10000}},
+        "thorough": {"shards": 16, "budget_s": 900, "min_evals": 20000000, "extras": ["asan_seglog"]},
+    },
+    "C18": {
+        "engine": "vp-seglog", "level": "exploration",
+        "rule": "(a) seeded op lists of 300 ops on one segment: append (unique self-describing records, 0 B..72 KiB, compressible or not), flush_writer, sync, set_len at a record boundary, compression toggles, interleaved with reads through 2-3 long-lived readers sharing the writer's FlushedOffset (try_clone): random/sequential reads of flushed, unflushed and truncated records, iteration from record boundaries, replace_header through one reader; oracle = writer-side model (offset, header, data, length, flushed mark): flushed records must read back exactly through every reader, nothing at or beyond the flushed mark may be returned; (b) writer thread + 3 reader threads on an 8 MiB segment: records synced before a read started must read back exactly, a record starting at or above the flushed mark loaded after the read must not be returned. non-trivial = distinct op lists containing a set_len or a sequential read through a reader whose cache was filled before the record was flushed, and threaded runs",
+        "assumptions": A_COMMON + ["flushed marks only ever sit at record boundaries (sync and set_len at boundaries), as in sierradb's use"],
+        "quick": {"shards": 16, "budget_s": 30, "min_evals": 1000, "min_counters": {"set_len_ops": 1000, "sequential_reads_through_reader_with_older_cache": 5000, "threaded_reads_checked": 100000}},
+        "thorough": {"shards": 16, "budget_s": 600, "min_evals": 100000, "extras": ["tsan_seglog"]},
+    },
 }
